@@ -4,7 +4,7 @@ From Coq Require Import List Ascii ZArith Bool Lia.
 From CGV Require Import Base.PyBase Base.PyVal Base.NxGraph Resolve.Bonding Resolve.GraphOps.
 From CGV Require Import Hydro.Squash Hydro.SquashDefs Hydro.QuotientDefs Hydro.BangBonds Hydro.BangGraph.
 From CGV Require Import Compose.CutModel Compose.CutPos Compose.CutSpecCheck Compose.CutSkeleton.
-From CGV Require Import Hydro.ShareCut Hydro.ShareCutTotal.
+From CGV Require Import Hydro.ShareCut Hydro.ShareCutTotal Hydro.ShareCutFull.
 Import ListNotations.
 Open Scope Z_scope.
 
@@ -94,4 +94,30 @@ Proof. split; [vm_compute; reflexivity|]. intros []; vm_compute; reflexivity. Qe
 Example ex_same_payload : same_payload exC exD ex_orig.
 Proof.
   intros x key v Hx. cbn in Hx. repeat destruct Hx as [<-|Hx]; try contradiction; vm_compute; exact (fun H => H).
+Qed.
+
+(** every hypothesis of ShareCutFull.share_vs_cut_resolver_full holds on the example (with exCD_hypotheses,
+    share_vs_cut_resolver_total_hypotheses and ex_same_payload), so its conclusion holds for it at both levels *)
+Example ex_hnum_dict : hnum_dictb (fragdict_of exC) = true.
+Proof. vm_compute. reflexivity. Qed.
+Example share_vs_cut_resolver_full_instance : forall aa : bool,
+  exists gs fgs gd fgd g',
+    (st <- resolve_disconnected (fdmap (bangify exL) (fragdict_of exC)) (base_of exC) ;;
+     bonding_step true aa (base_of exC) (fst st) (snd st)) = Ok (gs, fgs) /\
+    (st <- resolve_disconnected (fragdict_of exD) (base_of exD) ;; bonding_step true aa (base_of exD) (fst st) (snd st)) = Ok (gd, fgd) /\
+    squash_atoms gs = Ok g' /\ length gs = 7%nat /\ length g' = 5%nat /\
+    (forall y x, In y (node_keys g') -> In x (node_keys g') ->
+       has_edge g' y x = has_edge gd (pi_cut exC exD ex_orig y) (pi_cut exC exD ex_orig x)).
+Proof.
+  intros aa. destruct exCD_hypotheses as (H1 & H2 & H3 & H4 & H5 & H6 & H7).
+  destruct (share_vs_cut_resolver_full exC exD exL aa ex_orig (fragdict_of exC) (base_of exC) (fragdict_of exD) (base_of exD)
+              (wf_cutb_sound _ H1) (templates_okb_sound _ _ H2) (is_baseb_sound _ _ H3)
+              (wf_dictb_sound _ (proj1 share_vs_cut_resolver_total_hypotheses)) (hnum_dictb_sound _ ex_hnum_dict)
+              (wf_cutb_sound _ H4) (templates_okb_sound _ _ H5) (is_baseb_sound _ _ H6))
+    as (gs & fgs & gd & fgd & g' & R1 & R2 & Q & L1 & L2 & _ & _ & _ & A4 & _).
+  { intros _. apply ex_payloads. vm_compute. reflexivity. }
+  { intros _. apply ex_payloads. vm_compute. reflexivity. }
+  { apply expandsb_sound. exact H7. }
+  { exact ex_same_payload. }
+  exists gs, fgs, gd, fgd, g'. repeat (split; [assumption|]). exact A4.
 Qed.
